@@ -394,8 +394,31 @@ def cti_rules(F, R):
             guards = gs == {'x', 'y'}
         elif leaf == ('some', lit(0.0)):
             zero_else = True
+    # the only data the answer may branch on are the two variance guards: {both > 0 -> r; otherwise -> 0}
+    from .e3_bounds import Bounds, structural_cond
+    ctx_ = Bounds(F, v).ctx(m.last_vg)
+    gx, gy = comm(op('gt', vx, lit(0.0))), comm(op('gt', vy, lit(0.0)))
+
+    def data_atoms(c, out):
+        if c[0] == 'op' and c[1] in ('and', 'or', 'not'):
+            for y in c[2]:
+                data_atoms(y, out)
+        elif not structural_cond(c, ctx_):
+            out.append(c)
+        return out
+    extra = None
+    for conds, leaf in cases(ret):
+        if leaf[0] != 'some':
+            continue
+        for c in conds:
+            for a in data_atoms(c, []):
+                if comm(a) not in (gx, gy):
+                    extra = a
+    if extra is not None:
+        guards = False
     R.ob('CTI-r', 'CorrelationTrendIndicator', found, 'r = (nΣxt − ΣxΣt)/sqrt((nΣx² − (Σx)²)(nΣt² − (Σt)²))' if found else 'the reported ratio is not Pearson\'s r of the five sums', v.file)
     R.ob('CTI-G', 'CorrelationTrendIndicator', guards and zero_else, 'both variance terms are tested > 0 before dividing, 0 reported otherwise' if guards and zero_else else
+         ('the answer also branches on %s: only the two variance guards may decide between r and 0' % tstr(extra)[:80]) if extra is not None else
          'variance guards are not both `> 0` (an absolute threshold or a missing guard) or the degenerate branch does not report 0', v.file)
 
 
